@@ -177,6 +177,15 @@ Section HlleProof.
     - right. apply in_map_iff. exists (n - 1 - d)%nat. split; [f_equal; lia|apply in_seq; lia].
   Qed.
 
+  Theorem hlle_body_reinit_lin : forall step col,
+    hlin step = hlin hlle_step_expected -> hlin col = hlin hlle_col_expected ->
+    forall d, reinit (fun _ => False) (hlle_body step col d).
+  Proof.
+    intros step col Hs Hc d. apply hlle_body_reinit_iff. unfold hlle_written_all.
+    rewrite (hlle_written_lin step col Hs Hc d).
+    exact (proj1 (hlle_body_reinit_iff hlle_step_expected hlle_col_expected d) (hlle_body_reinit d)).
+  Qed.
+
   (* the code before the repair of F6: at d = 3 column 9 is read without having been written — the
      result of an iteration depends on the neighbourhood the same thread handled before *)
   Theorem hlle_body_old_not_reinit :
